@@ -630,7 +630,9 @@ func classifyRace(blk string) (key, class string) {
 	}
 	lib := func(s string) bool { return strings.Contains(s, "github.com/fullstorydev/grpchan") }
 	har := func(s string) bool { return strings.Contains(s, "verifharness/") }
-	mut := func(s string) bool { return strings.Contains(s, "verifharness/props.Mutate") || strings.Contains(s, "verifharness/props.mutate") }
+	mut := func(s string) bool {
+		return strings.Contains(s, "verifharness/props.Mutate") || strings.Contains(s, "verifharness/props.mutate")
+	}
 	top := func(s string) string {
 		for _, l := range strings.Split(s, "\n")[1:] {
 			l = strings.TrimSpace(l)
